@@ -538,6 +538,51 @@ func runC20(e *Env) error {
 			e.Res.Violate("failing-input", "declaration-order-changes-statements", fmt.Sprintf("seed %d: permuting the HCL blocks changes the statements (not only their order): %s", s, firstDiff(strings.Join(sa, "\n"), strings.Join(sb, "\n"))), "Props.C20 plan_decl_order", map[string]any{"seed": s})
 		}
 	}
+	// planning reads its input: the same schema marshals to the same document before and after a plan was made
+	// from it (and after a second one) - otherwise every later output depends on what was planned before
+	for _, s := range seeds {
+		for _, d := range []string{"mysql", "postgres", "sqlite"} {
+			sc, cs := c20Schema(s, d)
+			marshal := func() string {
+				var out []byte
+				var err error
+				switch d {
+				case "mysql":
+					out, err = mysql.MarshalHCL(sc)
+				case "postgres":
+					out, err = postgres.MarshalHCL(sc)
+				default:
+					out, err = sqlite.MarshalHCL(sc)
+				}
+				return fmt.Sprintf("err=%v\n%s", err, out)
+			}
+			before := marshal()
+			pl, _, _ := plannerOf(d)
+			var texts []string
+			for k := 0; k < 2; k++ {
+				func() {
+					defer func() { recover() }()
+					plan, err := pl.PlanChanges(context.Background(), "p", cs)
+					t := fmt.Sprintf("err=%v", err)
+					if err == nil {
+						for _, c := range plan.Changes {
+							t += "\n" + c.Cmd
+						}
+					}
+					texts = append(texts, t)
+				}()
+			}
+			e.Res.Count(fmt.Sprintf("input-kept:%d:%s", s, d), true, "input-kept")
+			if after := marshal(); after != before {
+				e.Res.Violate("failing-input", "planning-changes-its-input", fmt.Sprintf("seed %d, %s: the schema marshals to another document after it was planned: %s", s, d, firstDiff(before, after)), "Props.C20 (outputs depend on the input only)", map[string]any{"seed": s, "dialect": d})
+				break
+			}
+			if len(texts) == 2 && texts[0] != texts[1] {
+				e.Res.Violate("failing-input", "replanning-the-same-changes-differs", fmt.Sprintf("seed %d, %s: the second plan of the same changes differs: %s", s, d, firstDiff(texts[0], texts[1])), "Props.C20 repeated runs", map[string]any{"seed": s, "dialect": d})
+				break
+			}
+		}
+	}
 	// multi-schema documents (MySQL, PostgreSQL): the same blocks in every order give the same outcome - the same
 	// error, or the same statements and reference targets; references are qualified, unqualified-unique and
 	// unqualified-ambiguous (two schemas hold a table of that name)
